@@ -198,6 +198,25 @@ fn strat(t: Tier) -> proptest::strategy::BoxedStrategy<ValidCase> {
     }
 }
 
+/// The convenience calls compute the timestamps themselves (frame index / frame rate, running sample count / sample rate): the
+/// decode deltas in the file must equal those of the documented instants (C17's path generator and tick arithmetic,
+/// restricted to the timing clause).
+fn eval_auto(c: &crate::props::c17::PathCase) -> Outcome {
+    let inner = crate::props::c17::eval_paths(c);
+    let mut o = Outcome::default();
+    o.nontrivial = inner.nontrivial;
+    o.sub_evals = inner.sub_evals;
+    o.aborted_by_panic = inner.aborted_by_panic;
+    for mut v in inner.violations {
+        if v.clause == "auto_ticks" {
+            v.clause = "delta".into();
+            v.sig = format!("delta.{}", v.sig);
+            o.violations.push(v);
+        }
+    }
+    o
+}
+
 pub fn def() -> PropertyDef {
     PropertyDef {
         fuzz_targets: &["c01_scenario"],
@@ -207,6 +226,6 @@ pub fn def() -> PropertyDef {
                non-zero starts, reorderings with positive and negative composition offsets; stts/ctts/mdhd read back and compared with exact \
                integer tick arithmetic; non-trivial = >=3 samples with >=2 distinct deltas, or a 1001-rate, or reordering, or more than 1 024 samples",
         assumptions: &["half-tick ties (exact product within 2 ulp of .5) are accepted either way and counted as unconstrained"],
-        subs: vec![Box::new(PSub { name: "timing", quick: 30000, thorough: 800000, strat, eval }), Box::new(PSub { name: "totals_near_2^32", quick: 6000, thorough: 150000, strat: crate::props::c16::timeline_strategy, eval }), Box::new(LSub { name: "long_recordings", cases: long_cases_all, eval, note: LONG_NOTE })],
+        subs: vec![Box::new(PSub { name: "timing", quick: 30000, thorough: 800000, strat, eval }), Box::new(PSub { name: "totals_near_2^32", quick: 6000, thorough: 150000, strat: crate::props::c16::timeline_strategy, eval }), Box::new(PSub { name: "auto_timestamps", quick: 6000, thorough: 150000, strat: crate::props::c17::path_strategy, eval: eval_auto }), Box::new(LSub { name: "long_recordings", cases: long_cases_all, eval, note: LONG_NOTE })],
     }
 }
